@@ -135,6 +135,9 @@ func (x *c13Run) livenessProbe(ctx string) {
 }
 
 func (x *c13Run) packetCase(buf []byte, desc string) {
+	if x.rep.OverBudget() {
+		return // the internal budget is spent: the report says exhaustive=false
+	}
 	journal("C13 %v packet %s len=%d %x", x.cfg, desc, len(buf), buf[:min(len(buf), 48)])
 	x.rep.Evaluations++
 	before := ""
@@ -177,6 +180,9 @@ type pendingStream struct {
 // stall: silence), lets 2*TCPTimeout pass and requires every handler to have
 // ended and closed its side.
 func (x *c13Run) streamBatch(inputs []pendingStream) {
+	if x.rep.OverBudget() {
+		return
+	}
 	before := memberState(x.rcv.n)
 	allUndecodable := true
 	for i := range inputs {
